@@ -682,7 +682,9 @@ func (en *env) expr(x ast.Expr) val {
 		v := en.expr(e.X)
 		if v.kind == 'a' {
 			base := v.a
-			if strings.HasPrefix(base, "*") || strings.HasPrefix(base, "&") {
+			if strings.HasPrefix(base, "&") {
+				base = base[1:] // (&x).f is x.f
+			} else if strings.HasPrefix(base, "*") {
 				base = "(" + base + ")"
 			}
 			return val{kind: 'a', a: base + "." + e.Sel.Name}
